@@ -119,7 +119,8 @@ type TaskObs struct {
 	Owner  int  `json:"owner"` // environment of the parent role, locked or not; -1 none
 	Active bool `json:"active"`
 	State  int  `json:"state"`
-	Idok   bool `json:"idok"` // agent and executor id still set (false after an executor / agent failure)
+	Ch     int  `json:"ch,omitempty"` // shared task class it runs ("sh<Ch>"), 0 for a class of its own
+	Idok   bool `json:"idok"`         // agent and executor id still set (false after an executor / agent failure)
 }
 
 type EnvObs struct {
@@ -164,6 +165,8 @@ type Result struct {
 	// a creation gave up on its deploy timeout before the scheduler had even handed the launched tasks
 	// to the roster (machine under heavy load): the run says nothing about the clean-up, it is repeated
 	Slow bool `json:"slow,omitempty"`
+	// the core process died (Go fatal error / panic) inside the request after the last complete observation
+	Crashed bool `json:"crashed,omitempty"`
 }
 
 // ---------------------------------------------------------------- Coq printing
@@ -206,7 +209,11 @@ func roleTerm(r Role) string {
 	case KLeave:
 		k = fmt.Sprintf("(RLeave %d)", r.St)
 	}
-	return fmt.Sprintf("(mkRole %s %s %d %s)", k, gen.Bool(r.Crit), r.Launch, gen.Bool(r.Cfg))
+	ch := 0
+	if r.Kind == KPlain {
+		ch = r.Ch
+	}
+	return fmt.Sprintf("(mkRole %s %s %d %s %d)", k, gen.Bool(r.Crit), r.Launch, gen.Bool(r.Cfg), ch)
 }
 
 func specTerm(s *Spec) string {
@@ -214,7 +221,7 @@ func specTerm(s *Spec) string {
 	for i, r := range s.Roles {
 		rs[i] = roleTerm(r)
 	}
-	return fmt.Sprintf("(mkSpec %s %d %s %s)", nl(detsOf(s.Hosts)), s.Fail, gen.List(rs), nl(s.Refuse))
+	return fmt.Sprintf("(mkSpec %s %d %s %s %s)", nl(detsOf(s.Hosts)), s.Fail, gen.List(rs), nl(s.Refuse), gen.Bool(s.Reuse))
 }
 
 func opTerm(o Op) string {
@@ -256,7 +263,7 @@ func obsTerm(o Obs) string {
 		if t.Owner >= 0 {
 			ow = fmt.Sprintf("(Some %d)", t.Owner)
 		}
-		ts[i] = fmt.Sprintf("(mkTask %s %s %s %d %s 0)", tidTerm(t.Id), ow, gen.Bool(t.Active), t.State, gen.Bool(t.Idok))
+		ts[i] = fmt.Sprintf("(mkTask %s %s %s %d %s 0 %d)", tidTerm(t.Id), ow, gen.Bool(t.Active), t.State, gen.Bool(t.Idok), t.Ch)
 	}
 	return fmt.Sprintf("(mkObs %d %s %s %s %s %s %s %s %d %d %s %s)", o.Rc, gen.List(es), gen.List(ts), nl(o.ADets),
 		tl(o.Kills), tl(o.Cmds), tl(o.Calls), tl(o.Trigs), o.Early, o.Pend, tl(o.Launch), tl(o.Leak))
@@ -775,7 +782,15 @@ func (c *child) projection() (envs []EnvObs, roster []TaskObs, adets []int) {
 		if t.Status != "ACTIVE" {
 			state = 9 // not compared: written by unordered goroutines of the core (see model, norm_task)
 		}
-		roster = append(roster, TaskObs{Id: key, Owner: owner, Active: t.Status == "ACTIVE", State: state, Idok: idok})
+		ch := 0
+		cn := t.ClassName
+		if k := strings.LastIndex(cn, "/tasks/"); k >= 0 {
+			cn = cn[k+len("/tasks/"):]
+		}
+		if strings.HasPrefix(cn, "sh") {
+			fmt.Sscanf(cn, "sh%d", &ch)
+		}
+		roster = append(roster, TaskObs{Id: key, Owner: owner, Active: t.Status == "ACTIVE", State: state, Idok: idok, Ch: ch})
 	}
 	sort.Slice(roster, func(i, j int) bool { return roster[i].Id < roster[j].Id })
 	ad, _ := c.s.Rpc.GetActiveDetectors(c.ctx, &pb.Empty{})
@@ -921,7 +936,7 @@ func (c *child) setCfgErr(e int, s *Spec, on bool) {
 	c.mu.Lock()
 	for i, r := range s.Roles {
 		if r.Cfg && (r.Kind == KPlain || r.Kind == KHookTask) {
-			k := className(e, i, r.Kind)
+			k := roleClass(e, i, r)
 			if on {
 				c.cfgErr[k] = true
 			} else {
@@ -995,7 +1010,7 @@ func (c *child) failTarget(e int) (string, bool) {
 	}
 	for i, r := range spec.Roles {
 		if r.Kind == KPlain && r.Crit && active[tidOf(e, i)] {
-			return className(e, i, KPlain), true
+			return roleClass(e, i, r), true
 		}
 	}
 	return "", false
@@ -1107,6 +1122,11 @@ func (c *child) runOp(o Op) Obs {
 		if ch == nil {
 			return c.observe(1, 0)
 		}
+		// the deployment of the held creation happens now: it is the creation in progress again
+		c.mu.Lock()
+		c.curCreate = o.E
+		c.mu.Unlock()
+		viper.Set("reuseUnlockedTasks", o.Spec != nil && o.Spec.Reuse)
 		c.g.release(fmt.Sprintf("g%d", o.E))
 		res := <-ch
 		delete(c.pending, o.E)
@@ -1321,6 +1341,7 @@ func (c *child) runOp(o Op) Obs {
 }
 
 func runChild(workDir string) {
+	os.Remove(filepath.Join(workDir, "progress.json"))
 	var h History
 	if err := json.NewDecoder(os.Stdin).Decode(&h); err != nil {
 		fmt.Fprintln(os.Stderr, "child: bad input:", err)
@@ -1441,6 +1462,9 @@ func runChild(workDir string) {
 				res.Stg[i] = ob.stg
 			}
 			res.Obs = append(res.Obs, ob)
+			if b, e := json.Marshal(res); e == nil {
+				os.WriteFile(filepath.Join(workDir, "progress.json"), b, 0o644)
+			}
 			rmu.Unlock()
 		case <-time.After(15 * time.Second):
 			// the request did not return (e.g. TeardownEnvironment waiting for a release
@@ -1499,6 +1523,28 @@ func runHistory(h History, slot int, prop string, idx int) Result {
 			msg += ": " + err.Error()
 		}
 		tail := errb.String()
+		if strings.Contains(tail, "fatal error:") || strings.Contains(tail, "panic:") {
+			// the core died inside a request: keep what was observed before it (progress file) and mark the
+			// request as fatal (status 99, monitor code 9 of C04)
+			var r Result
+			if b, e := os.ReadFile(filepath.Join(wd, "progress.json")); e == nil {
+				json.Unmarshal(b, &r)
+			}
+			last := Obs{Rc: 99, Envs: []EnvObs{}, Roster: []TaskObs{}, ADets: []int{}, Kills: []int{}, Cmds: []int{},
+				Calls: []int{}, Trigs: []int{}, Launch: []int{}, Leak: []int{}}
+			for _, pat := range []string{"fatal error:", "panic:"} {
+				if k := strings.Index(tail, pat); k >= 0 && last.Note == "" {
+					e := strings.IndexByte(tail[k:], '\n')
+					if e < 0 {
+						e = len(tail) - k
+					}
+					last.Note = tail[k : k+e]
+				}
+			}
+			r.Obs = append(r.Obs, last)
+			r.Crashed = true
+			return r
+		}
 		if len(tail) > 600 {
 			tail = tail[len(tail)-600:]
 		}
@@ -1555,7 +1601,15 @@ func main() {
 			defer wg.Done()
 			for try := 0; try < 3; try++ {
 				results[i] = runHistory(hists[i], slot, *prop, i)
-				if !results[i].Hung && results[i].Err == "" && !(results[i].Slow && try < 2) {
+				if results[i].Crashed && len(results[i].Obs) == 1 && try < 2 {
+					// died before the first request completed: more likely the start-up of the child than the core
+					rmu.Lock()
+					retries++
+					hangs = append(hangs, fmt.Sprintf("history %d try %d: child died at start-up (%s)", i, try, results[i].Obs[0].Note))
+					rmu.Unlock()
+					continue
+				}
+				if results[i].Crashed || (!results[i].Hung && results[i].Err == "" && !(results[i].Slow && try < 2)) {
 					break
 				}
 				if results[i].Slow && !results[i].Hung && results[i].Err == "" {
